@@ -33,6 +33,7 @@ static void run_case(std::ostream& os, uint64_t s0, long long id, const std::str
   guarded(os, what, 120, [&](std::ostream& o) { run_case_body(o, s0, id, fam, S, C, emb, npts, cfg, reunion, nexec); });
   nexec += ((cfg == "lite" || cfg == "batchlite") ? 16 : 64) * (cfg == "notree" ? 1 : 2);   // executions happen in the child; count nominally
 }
+static bool g_gpcert = false;
 static void run_case_body(std::ostream& os, uint64_t s0, long long id, const std::string& fam, const Paths64& S, const Paths64& C,
                      const Emb& emb, int npts, const std::string& cfg, bool reunion, long long& nexec) {
   Paths64 all = S; all.insert(all.end(), C.begin(), C.end());
@@ -40,6 +41,7 @@ static void run_case_body(std::ostream& os, uint64_t s0, long long id, const std
   Rng pr(hash_paths(all) ^ s0);   // per-case stream: a replay of this single case (same --seed) picks the same points
   int ps = 1; std::vector<Point64> pts = sample_pts(pr, all, rect, npts, ps);
   Ev ce("Case"); ce.kn("id", id).ks("fam", fam).kn("emb", emb.id).kn("ps", ps).kv("subj", jpaths(S)).kv("clip", jpaths(C)).kv("pts", jpath(pts));
+  if (g_gpcert) ce.kn("gpcert", gp_native(all, 3) ? 1 : 0);
   os << ce.str() << "\n";
   Paths64 ES = emb_paths(emb, S), EC = emb_paths(emb, C), none;
   OutReg reg; reg.emb = &emb; reg.pts = &pts; reg.ps = ps; reg.os = &os;
@@ -97,7 +99,9 @@ static int cmd_bool(const Args& a) {
   const int64_t mul = argi(a, "mul", 1);
   auto emit = [&](Paths64 S, Paths64 C) { if (mul != 1) { for (auto* ps : {&S, &C}) for (auto& p : *ps) for (auto& q : p) { q.x *= mul; q.y *= mul; } } for (long long e : embs) run_case(os, s0, ++ncase, fam, S, C, emb_table()[e], npts, cfg, reunion, nexec); };
   Paths64 S, C;
-  if (fam == "gps") { for (long long i = 0; i < n; ++i) if (gen_gps(r, R, (int)argi(a, "maxpaths", 2), (int)argi(a, "maxv", 6), S, C)) emit(S, C); }
+  g_gpcert = argi(a, "gpcert", 0) != 0;
+  if (fam == "gps") { const int64_t off = argi(a, "off", 0);   // off: shift the lattice (negative coordinates: truncation towards zero behaves differently)
+    for (long long i = 0; i < n; ++i) if (gen_gps(r, R, (int)argi(a, "maxpaths", 2), (int)argi(a, "maxv", 6), S, C)) { if (off) for (auto* ps : {&S, &C}) for (auto& p : *ps) for (auto& q : p) { q.x += off; q.y += off; } emit(S, C); } }
   else if (fam == "ladder") { for (int ws = -3; ws <= 3; ++ws) for (int wc = -3; wc <= 3; ++wc) for (int d = 0; d < 2; ++d) { gen_ladder(ws, wc, d, S, C); emit(S, C); } }
   else if (fam == "walk") {
     int g = (int)argi(a, "grid", 6);
